@@ -277,11 +277,16 @@ enum EAct {
     Settle(usize),
     Claim(usize),
     Advance(i64),
+    /// the emissions admin switches the lending rewards off / on
+    Flags(bool),
 }
 
 struct EState {
     s: Store,
     path: Vec<EAct>,
+    /// the reference's own ledger: when each of the two positions was last touched by an instruction
+    /// (None: no position yet) — not read back from the program's `last_update` field
+    touched: [Option<u64>; 2],
 }
 
 fn position(s: &Store, acct: &Pubkey, bank: &Pubkey) -> Option<(Q, Q, u64)> {
@@ -361,7 +366,7 @@ fn emissions_sequences(e: &Env, tier: Tier, t: &mut T) -> u64 {
     let ta = w.users[0].tokens[&w.banks[0].mint];
     let mut states = 0u64;
     // budget variants: ample, and nearly exhausted (the cap binds)
-    for (bname, remaining, rate) in [("ample", 1_000_000_000f64, 1_000_000u64), ("nearly_exhausted", 1500.25f64, 1_000_000u64), ("zero_rate", 1_000_000_000f64, 0u64), ("high_rate", 1_000_000_000_000f64, 5_000_000_000u64)] {
+    for (bname, remaining, rate) in [("ample", 1_000_000_000f64, 1_000_000u64), ("nearly_exhausted", 1500.25f64, 1_000_000u64), ("zero_rate", 1_000_000_000f64, 0u64), ("high_rate", 1_000_000_000_000f64, 5_000_000_000u64), ("initially_off", 1_000_000_000f64, 1_000_000u64)] {
         let mut s0 = e.s.clone();
         // bring u0's own emission clock up to the present before the budget is set
         let _ = process_tx(&mut s0, &Tx::one(ix::settle_emissions(accts[0], bank), &[act::stranger()]));
@@ -369,6 +374,10 @@ fn emissions_sequences(e: &Env, tier: Tier, t: &mut T) -> u64 {
         world::edit_bank(&mut s0, &bank, |b| {
             b.emissions_remaining = raw_i80(remaining).into();
             b.emissions_rate = rate;
+            if bname == "initially_off" {
+                // the rewards are configured but switched off: positions are touched before they are switched on
+                b.flags &= !(marginfi_type_crate::constants::EMISSIONS_FLAG_LENDING_ACTIVE | marginfi_type_crate::constants::EMISSIONS_FLAG_BORROW_ACTIVE);
+            }
             b.total_liability_shares = I80F48::ZERO.into();
         });
         // fund the emissions vault generously so that payout never fails for lack of tokens
@@ -383,12 +392,13 @@ fn emissions_sequences(e: &Env, tier: Tier, t: &mut T) -> u64 {
             }
         });
         let depth = if tier == Tier::Quick { 4 } else { 5 };
-        let mut frontier = vec![EState { s: s0.clone(), path: vec![] }];
+        let touched0 = [position(&s0, &accts[0], &bank).map(|p| p.2), position(&s0, &accts[1], &bank).map(|p| p.2)];
+        let mut frontier = vec![EState { s: s0.clone(), path: vec![], touched: touched0 }];
         let mut seen: BTreeSet<[u8; 32]> = BTreeSet::new();
         for _ in 0..depth {
             let mut next = vec![];
             for st in &frontier {
-                let mut acts = vec![EAct::Advance(86_400 * 30), EAct::Advance(31_536_000)];
+                let mut acts = vec![EAct::Advance(86_400 * 30), EAct::Advance(31_536_000), EAct::Flags(false), EAct::Flags(true)];
                 for k in 0..2 {
                     acts.extend([EAct::Deposit(k, 1_000_000), EAct::Deposit(k, 999_000_000), EAct::Withdraw(k, 500_000), EAct::WithdrawAll(k), EAct::Settle(k), EAct::Claim(k)]);
                 }
@@ -398,8 +408,14 @@ fn emissions_sequences(e: &Env, tier: Tier, t: &mut T) -> u64 {
                             continue;
                         }
                     }
+                    if let EAct::Flags(_) = a {
+                        if st.path.iter().filter(|p| matches!(p, EAct::Flags(_))).count() >= 2 {
+                            continue;
+                        }
+                    }
                     let mut post = st.s.clone();
                     let mut path = st.path.clone();
+                    let mut touched = st.touched;
                     path.push(a.clone());
                     let rep = json!({"model": "C19C", "budget": bname, "path": path});
                     let (ok, who): (bool, Option<usize>) = match &a {
@@ -407,6 +423,10 @@ fn emissions_sequences(e: &Env, tier: Tier, t: &mut T) -> u64 {
                             post.advance(*dt);
                             refresh_oracles(&mut post, w);
                             (true, None)
+                        }
+                        EAct::Flags(on) => {
+                            let fl = if *on { marginfi_type_crate::constants::EMISSIONS_FLAG_LENDING_ACTIVE } else { 0 };
+                            (process_tx(&mut post, &Tx::one(ix::update_emissions_parameters(w.group, w.roles.emissions, bank, e.em_mint, e.em_funding, spl_token::id(), Some(fl), None, None), &[w.roles.emissions])).ok(), None)
                         }
                         EAct::Deposit(k, amt) => (process_tx(&mut post, &Tx::one(ix::deposit(w.group, accts[*k], auth, bank, ta, spl_token::id(), *amt, None, vec![]), &[auth])).ok(), Some(*k)),
                         EAct::Withdraw(k, amt) => (process_tx(&mut post, &Tx::one(ix::withdraw(w.group, accts[*k], auth, bank, ta, spl_token::id(), *amt, None, w.risk_metas(&st.s, &accts[*k], None, None)), &[auth])).ok(), Some(*k)),
@@ -431,8 +451,10 @@ fn emissions_sequences(e: &Env, tier: Tier, t: &mut T) -> u64 {
                         let rem1 = rf::q(b1.emissions_remaining);
                         let credited = postp.as_ref().map(|p| p.1.clone()).unwrap_or_else(Q::zero) - pre.as_ref().map(|p| p.1.clone()).unwrap_or_else(Q::zero) + rf::qi(paid);
                         // what the position earned since its last update, at its size before this instruction
-                        let expected = match &pre {
-                            Some((amount, _, last)) if *last >= marginfi_type_crate::constants::MIN_EMISSIONS_START_TIME => {
+                        let lending_on = b0.flags & marginfi_type_crate::constants::EMISSIONS_FLAG_LENDING_ACTIVE != 0;
+                        let expected = match (&pre, st.touched[k]) {
+                            (Some((amount, _, _)), Some(last)) if last >= marginfi_type_crate::constants::MIN_EMISSIONS_START_TIME && lending_on => {
+                                let last = &last;
                                 let period = rf::qi((post.now as i128) - (*last as i128));
                                 let raw = period * amount.clone() / rf::pow10(6) / rf::qi(31_536_000) * rf::qu(b0.emissions_rate);
                                 rf::qmin(raw, rem0.clone())
@@ -459,9 +481,12 @@ fn emissions_sequences(e: &Env, tier: Tier, t: &mut T) -> u64 {
                             t.found.push(Found { clause: "C19.emissions_within_budget".into(), sig: format!("{bname}:{kind}"), detail: "reward destination lost tokens".into(), replay: rep.clone() });
                         }
                     }
+                    if let Some(k) = who {
+                        touched[k] = if position(&post, &accts[k], &bank).is_some() { Some(post.now as u64) } else { None };
+                    }
                     let key = crate::canon::state_key(&post, &[]);
                     if seen.insert(key) {
-                        next.push(EState { s: post, path });
+                        next.push(EState { s: post, path, touched });
                     }
                 }
             }
@@ -544,7 +569,7 @@ pub fn run(tier: Tier) -> Outcome {
         "evaluations": t.cells,
         "distinct_nontrivial": ok,
         "emission_states": states,
-        "rule": "(A) buckets {0, 0.25, 1, 1.75, 100.5, 250.5}^3 x liquidity {0, 1, 5, 300, 352, 353, 1e6} x {SPL bank, Token-2022 bank with a 1 % transfer fee}: each bucket falls by a whole number not above its whole part, the liquidity vault pays exactly that sum, each of insurance vault / fee vault / global fee wallet's canonical token account receives its own bucket's amount (net of the mint's fee), everything whole is paid when liquidity suffices; (A2) after the global fee admin rotated the fee wallet, with the group's cached copy {stale, propagated}, collection offered the token account of {previous, current} wallet: nothing may be paid to the previous wallet's; (B) {withdraw_fees, withdraw_insurance, withdraw_fees_permissionless} x 12 signers x {fixed destination, another token account}; (B2) 12 signers x {own, foreign group in the group slot} re-point the fee destination, then a stranger withdraws permissionlessly into it: only the bank's own group admin can make that pay; (C0) setup_emissions x top-up through update_emissions_parameters x reward mint {SPL, Token-2022 without fee, 1 % fee, fee capped at 700} x totals {1, 99, 100, 1e6, 123456789} x top-ups {0, 1, 101, 1e6, 77777777}: the booked remaining budget never exceeds the tokens in the reward vault; (C) every sequence up to depth 4 (quick) / 5 of {deposit small / large, withdraw, withdraw-all, settle, claim} by two accounts and clock advances {30 d, 1 y} (at most two) x budgets {ample, nearly exhausted, zero rate, high rate}: credited rewards = elapsed x size-before x rate / year capped by the remaining budget, budget falls by exactly that and never below zero; (D) reward withdrawal {signed, permissionless} x 12 signers x {normal, in receivership, frozen, disabled} x {configured destination, another reward token account}",
+        "rule": "(A) buckets {0, 0.25, 1, 1.75, 100.5, 250.5}^3 x liquidity {0, 1, 5, 300, 352, 353, 1e6} x {SPL bank, Token-2022 bank with a 1 % transfer fee}: each bucket falls by a whole number not above its whole part, the liquidity vault pays exactly that sum, each of insurance vault / fee vault / global fee wallet's canonical token account receives its own bucket's amount (net of the mint's fee), everything whole is paid when liquidity suffices; (A2) after the global fee admin rotated the fee wallet, with the group's cached copy {stale, propagated}, collection offered the token account of {previous, current} wallet: nothing may be paid to the previous wallet's; (B) {withdraw_fees, withdraw_insurance, withdraw_fees_permissionless} x 12 signers x {fixed destination, another token account}; (B2) 12 signers x {own, foreign group in the group slot} re-point the fee destination, then a stranger withdraws permissionlessly into it: only the bank's own group admin can make that pay; (C0) setup_emissions x top-up through update_emissions_parameters x reward mint {SPL, Token-2022 without fee, 1 % fee, fee capped at 700} x totals {1, 99, 100, 1e6, 123456789} x top-ups {0, 1, 101, 1e6, 77777777}: the booked remaining budget never exceeds the tokens in the reward vault; (C) every sequence up to depth 4 (quick) / 5 of {deposit small / large, withdraw, withdraw-all, settle, claim} by two accounts, clock advances {30 d, 1 y} (at most two) and the emissions admin switching the lending rewards off / on (at most twice) x budgets {ample, nearly exhausted, zero rate, high rate, ample but initially switched off}: credited rewards = elapsed x size-before x rate / year capped by the remaining budget, where *elapsed* is measured by the reference's own ledger of when each position was last touched (not read back from the program's field) and nothing is earned while the rewards are switched off at the time of the touch; budget falls by exactly that and never below zero; (D) reward withdrawal {signed, permissionless} x 12 signers x {normal, in receivership, frozen, disabled} x {configured destination, another reward token account}",
         "exhaustive": TRUNCATED.load(std::sync::atomic::Ordering::Relaxed) == 0,
         "cap_hit": if TRUNCATED.load(std::sync::atomic::Ordering::Relaxed) == 0 { serde_json::Value::Null } else { json!(format!("reward-sequence frontier capped at {} states per layer; {} states were dropped from the last layers", FRONTIER_CAP, TRUNCATED.load(std::sync::atomic::Ordering::Relaxed))) },
         "outcome_classes": t.classes,
